@@ -288,6 +288,18 @@ func contractType(name string) types.Type {
 		return types.Typ[types.Bool]
 	case "real":
 		return realType
+	case "uint32":
+		return types.Typ[types.Uint32]
+	case "uint64":
+		return types.Typ[types.Uint64]
+	case "int64":
+		return types.Typ[types.Int64]
+	case "byte", "uint8":
+		return types.Typ[types.Uint8]
+	case "rune", "int32":
+		return types.Typ[types.Int32]
+	case "interface{}", "any":
+		return types.NewInterfaceType(nil, nil)
 	}
 	if curPkg != nil {
 		if o := curPkg.Scope().Lookup(name); o != nil {
@@ -301,7 +313,7 @@ var specFuncs = map[string]types.Type{
 	"NL": types.Typ[types.Int], "LS": types.Typ[types.Int], "LE": types.Typ[types.Int],
 	"tolower": types.Typ[types.String], "sindex": types.Typ[types.Int], "hasprefix": types.Typ[types.Bool], "sconcat": types.Typ[types.String],
 	"u16": types.Typ[types.Int], "bnd": types.Typ[types.Bool], "vld": types.Typ[types.Bool], "step": types.Typ[types.Int], "runelen": types.Typ[types.Int],
-	"lsof": types.Typ[types.Int], "nlb": types.Typ[types.Int],
+	"lsof": types.Typ[types.Int], "nlb": types.Typ[types.Int], "fmtint": types.Typ[types.String], "unfmtint": types.Typ[types.Int],
 	"skipsp": types.Typ[types.Int], "width": types.Typ[types.Int], "rune": types.Typ[types.Int], "u16w": types.Typ[types.Int],
 	"unicodeIsLetter": types.Typ[types.Bool], "trimspace": types.Typ[types.String], "substr": types.Typ[types.String],
 }
@@ -623,6 +635,26 @@ func (fr *Frame) tr(e ast.Expr, env *Env) Val {
 			}
 			return Val{fmt.Sprintf("(%s %s)", fn.Name, strings.Join(as, " ")), rt}
 		}
+		if ffn, ffc := c.lookupFunctional(fn.Name); ffn != nil {
+			sym, pts, rt := c.funcSym(ffn, ffc)
+			var as []string
+			for i, a := range x.Args {
+				v := fr.tr(a, env)
+				if st, ok := pts[i].(*seqType); ok {
+					v = fr.toSeq(v, st, env)
+				}
+				as = append(as, v.T)
+			}
+			return Val{fmt.Sprintf("(%s %s)", sym, strings.Join(as, " ")), rt}
+		}
+		if fn.Name == "seq" {
+			v := fr.tr(x.Args[0], env)
+			sl, ok := v.Typ.Underlying().(*types.Slice)
+			if !ok {
+				panic("seq: argument is not a slice")
+			}
+			return fr.toSeq(v, &seqType{sl.Elem()}, env)
+		}
 		if fn.Name == "concat" {
 			fn.Name = "sconcat"
 		}
@@ -727,7 +759,11 @@ func (fr *Frame) elaborate(si *specInfo) {
 			sorts = append(sorts, c.sortOf(ty))
 			names = append(names, bn)
 		}
-		body = fr.evalExpr(si.def.Body, &Env{fr: fr, st: pst, old: pst, binds: binds, noLocals: true}).T
+		if si.def.Ret == "bool" {
+			body = fr.evalClause(si.def.Body, &Env{fr: fr, st: pst, old: pst, binds: binds, noLocals: true})
+		} else {
+			body = fr.evalExpr(si.def.Body, &Env{fr: fr, st: pst, old: pst, binds: binds, noLocals: true}).T
+		}
 		if len(pst.param.order) == len(si.keys) {
 			break
 		}
